@@ -669,6 +669,25 @@ class C07:
                 return c
             add(self._try(mk))
 
+        # -- threshold detectors with a heralded mode that can hold >= 2 photons: the cap acts BEFORE the herald check
+        for i in range(14 if q else 250):
+            def mk():
+                n = rng.randint(3, 4)
+                inp = [0] * (n - 1)
+                for _ in range(2):
+                    inp[rng.randrange(n - 1)] += 1
+                cfg = dict(circ=dict(kind="unitary", n=n, useed=rng.randint(0, 10 ** 6)),
+                           heralds=[[1, rng.randrange(n), rng.randrange(n)]], input=inp)
+                kind = "n_outputs" if i % 2 == 0 else "n_inputs"
+                det = dict(eff=1.0, pdark=0.0, pc=False) if kind == "n_outputs" else dict(
+                    eff=rng.choice([1, 0.9, 0.5]), pdark=rng.choice([0, 0.1]), pc=False)
+                c = dict(kind=kind, **cfg, det=det, psel=None, mind=rng.choice([0, 1, 1, 2]),
+                         N=nd, seed=rng.randint(0, 10 ** 6))
+                if rng.random() < 0.4:
+                    c["psel"] = g_psel_sat(rng, c, n - 1)
+                return c
+            add(self._try(mk))
+
         # -- Sampler.sample()
         for i in range(40 if q else 800):
             def mk():
